@@ -108,6 +108,13 @@ var Benign = [][]string{
 	{"for", "(", ";", ";", ")", "foo", "bar", ";"}, {"echo", "1", "2", ";"}, {"$x", "=", "new", ";"}, {"foreach", "(", "$c", "as", ")", "g", "(", ")", ";"},
 }
 
+// BenignOpen: malformed statements WITHOUT a ';' of their own (a forgotten semicolon). They are only placed as the
+// last statement of a list that is closed by '}': a statement cannot reach beyond the closing brace of its block,
+// so the error may cost this statement, but neither the block nor anything behind it.
+var BenignOpen = [][]string{
+	{"echo", "$x", "$y"}, {"$x", "=", "1", "$y"}, {"foo", "(", "$x", ")", "$y"}, {"return", "$x", "$y"}, {"$x", "->", "y", "$z"}, {"print", "1", "2"},
+}
+
 // StmtListKinds: kinds whose Stmts list is a statement list with an error production.
 var StmtListKinds = map[string]bool{"Root": true, "StmtFunction": true, "ExprClosure": true, "StmtStmtList": true, "StmtCase": true, "StmtDefault": true, "StmtCatch": true, "StmtFinally": true, "StmtTry": true, "StmtNamespace": true}
 
